@@ -47,7 +47,8 @@ def hidden_channels(b):
         (ts['args'][1] in ('hidden', 'both') and any('own' in c['sa'] for c in prog['calls']))
     ck = any(c['sk'] in ('foreign', 'own+f') for c in prog['calls']) or \
         (ts['kwargs'][1] in ('hidden', 'both') and any('own' in c['sk'] for c in prog['calls'])) or \
-        any(c.get('inarg') == 'mutate' for c in prog['calls'])
+        any(c.get('inarg') == 'mutate' for c in prog['calls']) or any(c['ctx'] == 'comp_rebinds_kwargs' for c in prog['calls'])
+    ca = ca or any(c['ctx'] == 'comp_rebinds_args' for c in prog['calls'])
     return ca, ck
 
 
@@ -217,12 +218,14 @@ def check_prog(prog, stats, executed_cap=400):
             own = [q for q in b.outer if q.name == p.name]
             if not from_callee or (own and len(from_callee) < len(srcs)):
                 continue
-            kinds = leaf_kinds.get(p.name, set())
-            if te['args'] and kinds and kinds <= {PO, POK, VP}:
+            # judged by the role the parameter is advertised in: a callee parameter offered positionally
+            # although *args is tainted, or by keyword although **kwargs is
+            kinds = {int(p.kind)}
+            if te['args'] and kinds <= {PO, POK, VP}:
                 stats.fail('C05/taint-advertised/args', case,
                            '*args is rebound/deleted/combined before every forwarding call, yet the reported signature %s advertises the '
                            'callee\'s positional parameter %r for\n%s' % (R, p.name, b.src))
-            if te['kwargs'] and kinds and kinds <= {POK, KWO, VK}:
+            if te['kwargs'] and kinds <= {POK, KWO, VK}:
                 stats.fail('C05/taint-advertised/kwargs', case,
                            '**kwargs is rebound/mutated/deleted/handed over/combined before every forwarding call, yet the reported '
                            'signature %s advertises the callee\'s keyword parameter %r for\n%s' % (R, p.name, b.src))
@@ -346,6 +349,10 @@ def run(ctx):
     tasks += [(s + 500, n // 64, {'routes': ('global', 'closure', 'attr', 'self_method', 'param'), 'allow_taints': False})
               for s in ctx.shard_seeds(16)]
     tasks += [(s + 700, n // 64, {'routes': ('global', 'self_attr', 'partial_inner'), 'max_calls': 1})
+              for s in ctx.shard_seeds(16)]
+    # nested scopes and default-value positions (calls the walker defers or could overlook)
+    tasks += [(s + 900, n // 64, {'ctxs': progs.NESTED_CTXS + ('lambda_default', 'return'), 'allow_taints': False,
+                                  'routes': ('global', 'closure', 'param', 'self_method', 'attr')})
               for s in ctx.shard_seeds(16)]
     total.merge(ctx.pmap(shard_hyp, tasks))
     return total
